@@ -1648,7 +1648,7 @@ def exposed_syms(t):
         if a.kind == 'sym':
             out.add(a.args[0])
             return
-        if a.kind == 'call' and a.args[0] not in MODELLED and a.args[0] not in PACKAGE_HEADS and a.args[0] not in STR_METHODS:
+        if a.kind == 'call' and a.args[0] not in MODELLED and a.args[0] not in PACKAGE_HEADS and a.args[0] not in STR_METHODS and not str(a.args[0]).startswith('mut.'):
             return
         for x in a.args:
             walk_arg(x)
@@ -1752,7 +1752,7 @@ def _compare_flat(a, b):
     shb = {x.args[1][0].key for x in only_b if x.kind == 'call' and x.args[0] == 'shape' and x.args[1]}
     for side, other in ((only_a, only_b), (only_b, only_a)):
         for x in side:
-            if x.kind == 'call' and x.args[0] not in MODELLED and x.args[0] not in PACKAGE_HEADS and x.args[0] not in STR_METHODS:
+            if x.kind == 'call' and x.args[0] not in MODELLED and x.args[0] not in PACKAGE_HEADS and x.args[0] not in STR_METHODS and not str(x.args[0]).startswith('mut.'):
                 # an opaque head is decisive only when the other side applies the SAME head (to other arguments)
                 if not any(y.kind == 'call' and y.args[0] == x.args[0] and len(y.args[1]) == len(x.args[1])
                            for y in other):
